@@ -51,6 +51,11 @@ GRAMMARS = {
     "nums": "start = value $ ;\nvalue = real | integer | flag ;\ninteger::int = /\\d+/ ;\nreal::float = /\\d+\\.\\d+/ ;\nflag::bool = 'yes' ;\n",
     "nums_b": "start = value $ ;\nvalue = integer | flag ;\ninteger::int = /\\d+/ ;\nflag::bool = 'yes' | 'on' ;\n",
     # grammars that differ only in white space that matters (inside a token, inside a pattern)
+    # constants evaluated in a rule with named elements, and constants that mention such names or builtins
+    "cn_a": "start = v:/\\d+/ `ok` $ ;\n",
+    "cn_b": "start = 'x' `v` $ ;\n",
+    "cn_c": "start = 'x' `{len('abc')}` $ ;\n",
+    "cn_d": "start = len:/\\d+/ max:/[a-z]+/ `1` $ ;\n",
     "tok_a": "start = 'end if' $ ;\n",
     "tok_b": "start = 'end  if' $ ;\n",
     "pat_a": "start = /\\d+ \\d+/ $ ;\n",
@@ -77,6 +82,10 @@ INPUTS = {
     "typed_d": ["ab", "1"],
     "nums": ["1", "1.0", "yes", "0", "0.0", "2", "2.5", "x"],
     "nums_b": ["1", "yes", "on", "0", "1.0"],
+    "cn_a": ["7", "x"],
+    "cn_b": ["x", "y"],
+    "cn_c": ["x"],
+    "cn_d": ["7 ab", "7"],
     "tok_a": ["end if", "end  if", "END IF", " end if"],
     "tok_b": ["end if", "end  if", "END  IF"],
     "pat_a": ["12 34", "12  34"],
@@ -84,7 +93,7 @@ INPUTS = {
     "kw_b": ["x", "if", "then", "else"],
 }
 FAMILIES = [["typed", "typed_b", "typed_c", "params", "typed_d"], ["kw", "icase", "kw_b"], ["ref", "two", "choice", "ws"], ["lrec", "cut", "over", "named", "const"],
-            ["nums", "nums_b"], ["tok_a", "tok_b", "pat_a", "pat_b"]]
+            ["nums", "nums_b"], ["tok_a", "tok_b", "pat_a", "pat_b"], ["cn_a", "cn_b", "cn_c", "cn_d", "const"]]
 FAMILY_RULES = {"nums": ["start", "value", "integer", "real", "flag"], "tok_a": ["start"], "typed": ["start", "num", "word", "nosuch"], "kw": ["start", "name", "stmt"], "ref": ["start", "num", "word", "first", "second", "x", "nosuch"],
                 "lrec": ["start", "e", "n", "a", "b", "num"]}
 
@@ -530,7 +539,7 @@ def exec_op(op, H, probes=None):
         # one semantics object owned by the caller and given to several calls (stateless kinds only)
         key = "sem:" + op["semh"]
         if key not in H:
-            H[key] = ("sem", make_sem(op.get("sem", "tag"), None, tag=op["semh"]))
+            H[key] = ("sem", make_sem(SEM_HANDLES[op["semh"]], None, tag=op["semh"]))  # the kind belongs to the handle
         sem = H[key][1]
     else:
         sem = make_sem(op.get("sem", "none"), fault if fault and fault["kind"] in ("failsem", "foreign") else None,
@@ -606,6 +615,24 @@ def exec_op(op, H, probes=None):
             H.pop(op["h"], None)
             gc.collect()
             return {"dropped": True}
+        if kind == "churn":
+            # a long-running service: many short-lived parser objects, each used once (here: with a start rule the grammar
+            # may not have) and thrown away.  Their addresses are free again for whatever is created next.
+            ent = H.get(op["h"])
+            if ent is None:
+                return {"skip": "no-handle"}
+            cls = type(ent[1])
+            outcomes = {}
+            for _ in range(op["count"]):
+                p = cls()
+                try:
+                    r = digest_of(canon(p.parse(op["text"], **op_kwargs(op))))
+                except Exception as e:  # noqa: BLE001
+                    r = type(e).__name__
+                outcomes[r] = outcomes.get(r, 0) + 1
+                del p
+            gc.collect()
+            return {"churn": outcomes}
         raise HarnessError(f"unknown op {kind}")
 
     try:
@@ -949,8 +976,10 @@ def gen_call(rng, handles, models_only=False, allow_fault=True, focus=None):
         k = rng.random()
         if k < 0.4 and op["op"] != "compile":
             op["sem"] = rng.choice(["id", "tag", "num", "eq", "fa", "fb", "fc"])
+            op.pop("semh", None)
             op["fault"] = {"kind": "failsem", "nth": rng.choice([1, 1, 2, 3])}
         elif k < 0.7 and op["op"] != "compile":
+            op.pop("semh", None)
             op["sem"] = rng.choice(["id", "tag", "num", "eq", "fa", "fb", "fc"])
             op["fault"] = {"kind": "foreign", "nth": rng.choice([1, 1, 2, 3]), "exc": rng.choice(["KeyError", "ValueError", "TypeError", "SemFault"])}
         else:
@@ -959,7 +988,7 @@ def gen_call(rng, handles, models_only=False, allow_fault=True, focus=None):
     return op
 
 
-GOOD_INPUT = {"nums": "1", "nums_b": "1", "tok_a": "end if", "tok_b": "end  if", "pat_a": "12 34", "pat_b": "12  34", "ref": "12 ab", "choice": "a", "typed": "1", "typed_b": "1", "typed_c": "1 a", "typed_d": "ab", "params": "1", "kw": "x", "kw_b": "x",
+GOOD_INPUT = {"cn_a": "7", "cn_b": "x", "cn_c": "x", "cn_d": "7 ab", "nums": "1", "nums_b": "1", "tok_a": "end if", "tok_b": "end  if", "pat_a": "12 34", "pat_b": "12  34", "ref": "12 ab", "choice": "a", "typed": "1", "typed_b": "1", "typed_c": "1 a", "typed_d": "ab", "params": "1", "kw": "x", "kw_b": "x",
               "icase": "x", "ws": "ab cd", "const": "a", "named": "1", "over": "(1)", "lrec": "1", "cut": "x y", "two": "ab"}
 
 
@@ -1068,9 +1097,31 @@ def gen_pair_history(rng, handles):
                     pz.update(_pair_kw(rng, g, base_kw))
                     seq.append(pz)
         seqs.append(seq)
-    # interleave, keeping each sequence's own order
     ops = []
     a, b = seqs
+    first_handle = next((o["out"] for o in a if o["op"] in ("compile", "load")), None)
+    if scenario == "parsers" and first_handle is not None and rng.random() < 0.25:
+        ch = {"op": "churn", "h": first_handle, "g": a[0]["g"], "text": rng.choice(INPUTS[a[0]["g"]]), "count": rng.choice([60, 150])}
+        if "start" in base_kw:
+            ch["start"] = base_kw["start"]
+        elif rng.random() < 0.7:
+            ch["start"] = rng.choice([x for x in start_choices(a[0]["g"]) if x])
+        a.insert(1, ch)
+        second_handle = next((o["out"] for o in b if o["op"] == "load"), None)
+        if second_handle is not None:
+            # ... and many short-lived objects of the other parser class afterwards, each of which may be given such an address
+            ch2 = {"op": "churn", "h": second_handle, "g": b[0]["g"], "text": GOOD_INPUT.get(b[0]["g"], INPUTS[b[0]["g"]][0]), "count": rng.choice([150, 400])}
+            if "start" in ch:
+                ch2["start"] = ch["start"]
+            b.append(ch2)
+            ops = [*a, *b]
+            a, b = [], []
+    if first_handle is not None and rng.random() < 0.3 and a:
+        # one after the other, the first object dropped and collected in between: its address may be handed to the second
+        ops = [*a, {"op": "drop", "h": first_handle, "g": a[0]["g"]}, *b]
+        handles.pop(first_handle, None)
+        a, b = [], []
+    # interleave, keeping each sequence's own order
     while a or b:
         if a and (not b or rng.random() < 0.5):
             ops.append(a.pop(0))
